@@ -34,6 +34,7 @@ def run(chk):
                                                            eam=True, label=target))
     chk.attempt("B", lambda: builder_obligations(chk, P, "C03.B"))
     chk.attempt("R", lambda: reference_data_obligations(chk, P, "C03.R"))
+    W.path_state_rule(chk, P, "C03.S", "setfl write and build path")
     chk.assume("the header's cutoff field (line 5, last number) is not constrained by the property")
     chk.assume("floating-point rounding of i*drho, i*dr and r*phi(r) is not decided")
     chk.assume("species labels of the eam potential list are distinct (builder iterates dictionary keys: obligation B)")
